@@ -53,7 +53,13 @@ type UF struct {
 	Ret  Sort
 }
 
+type constKey struct {
+	s Sort
+	v int64
+}
+
 type Ctx struct {
+	small map[constKey]*Term // constants that fit an int64 (fast path, no allocation)
 	tab   map[string]*Term
 	next  int
 	Vars  []*Term // in creation order
@@ -62,7 +68,7 @@ type Ctx struct {
 }
 
 func NewCtx() *Ctx {
-	return &Ctx{tab: map[string]*Term{}, UFs: map[string]*UF{}}
+	return &Ctx{tab: map[string]*Term{}, UFs: map[string]*UF{}, small: map[constKey]*Term{}}
 }
 
 func (c *Ctx) intern(t *Term) *Term {
@@ -118,24 +124,70 @@ func Signed(v *big.Int, w int) *big.Int {
 }
 
 func (c *Ctx) Bool(b bool) *Term {
-	v := big.NewInt(0)
+	k := constKey{BoolSort, 0}
 	if b {
-		v = big.NewInt(1)
+		k.v = 1
 	}
-	return c.intern(&Term{Op: "const", S: BoolSort, V: v})
+	if t, ok := c.small[k]; ok {
+		return t
+	}
+	t := c.intern(&Term{Op: "const", S: BoolSort, V: big.NewInt(k.v)})
+	c.small[k] = t
+	return t
 }
 func (c *Ctx) True() *Term  { return c.Bool(true) }
 func (c *Ctx) False() *Term { return c.Bool(false) }
 
 func (c *Ctx) BV(v *big.Int, w int) *Term {
+	// fast path: a non-negative value below 2^min(w,63) is its own normal form
+	if v.Sign() >= 0 && v.IsInt64() {
+		x := v.Int64()
+		if w >= 63 || x < int64(1)<<uint(w) {
+			k := constKey{BVSort(w), x}
+			if t, ok := c.small[k]; ok {
+				return t
+			}
+			t := c.intern(&Term{Op: "const", S: k.s, V: big.NewInt(x)})
+			c.small[k] = t
+			return t
+		}
+	}
 	return c.intern(&Term{Op: "const", S: BVSort(w), V: norm(v, w)})
 }
-func (c *Ctx) BVu(v uint64, w int) *Term { return c.BV(new(big.Int).SetUint64(v), w) }
-func (c *Ctx) BVi(v int64, w int) *Term  { return c.BV(big.NewInt(v), w) }
+func (c *Ctx) BVu(v uint64, w int) *Term {
+	if v < 1<<62 && (w >= 63 || v < uint64(1)<<uint(w)) {
+		if t, ok := c.small[constKey{BVSort(w), int64(v)}]; ok {
+			return t
+		}
+	}
+	return c.BV(new(big.Int).SetUint64(v), w)
+}
+func (c *Ctx) BVi(v int64, w int) *Term {
+	if v >= 0 && (w >= 63 || v < int64(1)<<uint(w)) {
+		if t, ok := c.small[constKey{BVSort(w), v}]; ok {
+			return t
+		}
+	}
+	return c.BV(big.NewInt(v), w)
+}
 func (c *Ctx) Int(v *big.Int) *Term {
+	if v.IsInt64() {
+		k := constKey{IntSort, v.Int64()}
+		if t, ok := c.small[k]; ok {
+			return t
+		}
+		t := c.intern(&Term{Op: "const", S: IntSort, V: big.NewInt(k.v)})
+		c.small[k] = t
+		return t
+	}
 	return c.intern(&Term{Op: "const", S: IntSort, V: new(big.Int).Set(v)})
 }
-func (c *Ctx) Inti(v int64) *Term { return c.Int(big.NewInt(v)) }
+func (c *Ctx) Inti(v int64) *Term {
+	if t, ok := c.small[constKey{IntSort, v}]; ok {
+		return t
+	}
+	return c.Int(big.NewInt(v))
+}
 
 func (c *Ctx) Var(name string, s Sort) *Term {
 	return c.intern(&Term{Op: "var", S: s, Name: name})
@@ -305,6 +357,17 @@ func (c *Ctx) Eq(a, b *Term) *Term {
 	}
 	if a.IsConst() && b.Op == "ite" && b.A[1].IsConst() && b.A[2].IsConst() {
 		return c.Ite(b.A[0], c.Eq(b.A[1], a), c.Eq(b.A[2], a))
+	}
+	// bv2nat(x) == K  <=>  x == K (K within range)
+	if a.Op == "bv2nat" && b.IsConst() {
+		a, b = b, a
+	}
+	if b.Op == "bv2nat" && a.IsConst() {
+		x := b.A[0]
+		if a.V.Sign() < 0 || a.V.BitLen() > x.S.W {
+			return c.False()
+		}
+		return c.Eq(x, c.BV(a.V, x.S.W))
 	}
 	// concat vs const / concat: split bytewise when shapes match
 	if a.Op == "concat" && b.Op == "concat" && a.A[0].S == b.A[0].S {
@@ -679,7 +742,53 @@ func (c *Ctx) icmp(op string, a, b *Term) *Term {
 	if a == b {
 		return c.Bool(op == "<=")
 	}
+	if r := c.bv2natCmp(op, a, b); r != nil {
+		return r
+	}
 	return c.mk(op, BoolSort, a, b)
+}
+
+// bv2natCmp rewrites comparisons between bv2nat(x) and an Int constant (or another bv2nat) into pure bit-vector
+// comparisons, which keeps queries that only bound a byte-encoded integer out of the mixed Int/BV fragment.
+func (c *Ctx) bv2natCmp(op string, a, b *Term) *Term {
+	an, bn := a.Op == "bv2nat", b.Op == "bv2nat"
+	cmp := func(x, y *Term) *Term {
+		if op == "<" {
+			return c.BVUlt(x, y)
+		}
+		return c.BVUle(x, y)
+	}
+	switch {
+	case an && bn:
+		x, y := a.A[0], b.A[0]
+		if x.S.W < y.S.W {
+			x = c.ZExt(x, y.S.W-x.S.W)
+		} else if y.S.W < x.S.W {
+			y = c.ZExt(y, x.S.W-y.S.W)
+		}
+		return cmp(x, y)
+	case an && b.IsConst():
+		x := a.A[0]
+		max := new(big.Int).Sub(new(big.Int).Lsh(big.NewInt(1), uint(x.S.W)), big.NewInt(1))
+		if b.V.Sign() < 0 {
+			return c.False()
+		}
+		if b.V.Cmp(max) > 0 {
+			return c.True()
+		}
+		return cmp(x, c.BV(b.V, x.S.W))
+	case bn && a.IsConst():
+		y := b.A[0]
+		max := new(big.Int).Sub(new(big.Int).Lsh(big.NewInt(1), uint(y.S.W)), big.NewInt(1))
+		if a.V.Sign() < 0 {
+			return c.True()
+		}
+		if a.V.Cmp(max) > 0 {
+			return c.False()
+		}
+		return cmp(c.BV(a.V, y.S.W), y)
+	}
+	return nil
 }
 func (c *Ctx) ILt(a, b *Term) *Term { return c.icmp("<", a, b) }
 func (c *Ctx) ILe(a, b *Term) *Term { return c.icmp("<=", a, b) }
